@@ -87,10 +87,17 @@ def constToken (p : Prec) (col : List Nat) (nch : Nat) (levels : List Img) : Str
     | [] => "varies"
     | v :: rest => if rest.all (· == v) then showVal p (col.getD c 0) v else "varies"
 
-/-- `M <w> <h> <chan> <prec> <filter> <sa> <variant> <content> <seed>` -/
-def runC16 (line : String) : String :=
-  match toks line with
-  | ["M", w, h, chan, prec, filter, sa, variant, content, seed] =>
+/-- the optional last token `m:<levels>` of an `M` line: declared level count 1..255 -/
+def parseDeclared16 (s : String) : Option Nat :=
+  match splitColon s with
+  | ["m", n] => match nat? n with
+    | some n => if n = 0 ∨ n > 255 then none else some n
+    | none => none
+  | _ => none
+
+/-- `M <w> <h> <chan> <prec> <filter> <sa> <variant> <content> <seed> [m:<levels>]`; `declared = none` is the
+full chain of `Header::with_mipmaps` -/
+def runM16 (w h chan prec filter sa variant content seed : String) (declared : Option Nat) : String :=
     match nat? w, nat? h, parseChan16 chan, parsePrec16 prec, parseFilter16 filter, nat? seed with
     | some w, some h, some nch, some p, some f, some seed =>
       if w = 0 ∨ h = 0 ∨ w > 4096 ∨ h > 4096 ∨ seed ≥ 2 ^ 64 then "bad-case"
@@ -101,8 +108,8 @@ def runC16 (line : String) : String :=
       | none => "bad-case"
       | some col =>
         let sa := sa == "1"
-        -- Header::new_image(w, h, format).with_mipmaps()
-        let mips := maxMipCount (max w h)
+        -- Header::new_image(w, h, format).with_mipmaps() / .with_mipmap_count(m)
+        let mips := declared.getD (maxMipCount (max w h))
         match Texture.create w h mips (.fixed (targetBpp16 chan p)) with
         | .error _ => "err layout"
         | .ok t =>
@@ -138,6 +145,66 @@ def runC16 (line : String) : String :=
               s!"ok n={sizes.length} sizes={sizesS} plan={planS} const={constS}"
           | _, _ => "panic"
     | _, _, _, _, _, _ => "bad-case"
+
+/-- element count of `t | c | a<n>` (n = 2..8) -/
+def parseKind16 (s : String) : Option Nat :=
+  if s = "t" then some 1
+  else if s = "c" then some 6
+  else if s.startsWith "a" then
+    match nat? (s.drop 1).toString with
+    | some n => if 2 ≤ n ∧ n ≤ 8 then some n else none
+    | none => none
+  else none
+
+/-- `T`: for every element write levels 0..k-1 with generation off, then level k with generation on; returns
+the bytes written by each generating call (`none` = a call failed) -/
+def runStarts16 (w h : Nat) : Enc → List Nat → List Nat → Option (Enc × List Nat)
+  | e, [], acc => some (e, acc.reverse)
+  | e, k :: rest, acc =>
+    let pre := (List.range k).foldl (fun (a : Enc × Bool) l =>
+      let (e', r) := ({ a.1 with generate := false } : Enc).write (mipSize w l) (mipSize h l) false
+      (e', a.2 && r == .ok)) (e, true)
+    if !pre.2 then none else
+    let e1 : Enc := { pre.1 with generate := true }
+    let (e2, r) := e1.write (mipSize w k) (mipSize h k) false
+    if r ≠ .ok then none else runStarts16 w h e2 rest ((e2.written - e1.written) :: acc)
+
+def runC16 (line : String) : String :=
+  match toks line with
+  | ["M", w, h, chan, prec, filter, sa, variant, content, seed] =>
+    runM16 w h chan prec filter sa variant content seed none
+  | ["M", w, h, chan, prec, filter, sa, variant, content, seed, m] =>
+    match parseDeclared16 m with
+    | some m => runM16 w h chan prec filter sa variant content seed (some m)
+    | none => "bad-case"
+  -- `T <kind> <w> <h> <levels> <chan> <prec> <filter> <sa> <starts> <seed>`: texture / cube map / texture array
+  -- with `levels` declared levels; the chain of element e is started at level starts[e]. Bytes written by every
+  -- generating call (cursor look-ahead of Encoder.lean over the array layout), total, and whether `finish` accepts
+  | ["T", kind, w, h, mips, chan, prec, filter, sa, starts, seed] =>
+    match parseKind16 kind, nat? w, nat? h, nat? mips, parseChan16 chan, parsePrec16 prec, parseFilter16 filter,
+          natsOf (starts.splitOn ","), nat? seed with
+    | some elems, some w, some h, some mips, some _, some p, some _, some ks, some seed =>
+      if w = 0 ∨ h = 0 ∨ w > 256 ∨ h > 256 ∨ mips = 0 ∨ mips > 255 ∨ seed ≥ 2 ^ 64 then "bad-case"
+      else if ¬ (sa = "0" ∨ sa = "1") then "bad-case"
+      else if ks.length ≠ elems ∨ ks.any (· ≥ mips) then "bad-case"
+      else
+      match Texture.create w h mips (.fixed (targetBpp16 chan p)) with
+      | .error _ => "tseq err new"
+      | .ok t =>
+        let layout : Option DataLayout :=
+          if kind = "t" then some (.texture t)
+          else match TextureArray.new (if kind = "c" then .cubeMaps else .textures) elems t with
+            | some (.ok a) => some (.textureArray a)
+            | _ => none
+        match layout with
+        | none => "tseq err new"
+        | some L =>
+          match runStarts16 w h (Enc.new L 1 1) ks [] with
+          | none => "tseq err write"
+          | some (e, gen) =>
+            let genS := ",".intercalate (gen.map toString)
+            s!"tseq ok gen={genS} total={e.written} done={if e.finish == .ok then 1 else 0}"
+    | _, _, _, _, _, _, _, _, _ => "bad-case"
   -- `S <w> <filter> <variant> <seed>`: six faces through one encoder, aligned vs `variant` input (harness oracle
   -- only: the model's statement is that alignment is not an input of the model at all)
   | ["S", w, filter, variant, seed] =>
